@@ -319,6 +319,18 @@ Theorem C12_plain_card_zero_iff :
 Proof. exact plain_card_zero_iff. Qed.
 Print Assumptions C12_plain_card_zero_iff.
 
+(* cells generated by FILL (pot_fill: one copy of the container per cell of the
+   filling universe, with the CONTAINER's importance): such a cell passes the
+   conversion filter iff its container - a level-0 cell - has non-zero
+   importance; nothing of a zero-importance filled cell is converted *)
+Theorem C12_generated_converted_iff :
+  forall (T : Type) (Sc : Scalar T) (cells : list (Z * cell (T:=T))) (leaf key : Z) (g : cell (T:=T)),
+    In (leaf, key, g) (generated cells) ->
+    exists c, In (key, c) cells /\ c_u c = 0%Z /\
+              (converted Sc g = true <-> is_zero Sc c = false).
+Proof. exact @generated_converted_iff. Qed.
+Print Assumptions C12_generated_converted_iff.
+
 (* the writer's test "key in skipped_cells" never fires on a converted cell:
    the two filters agree *)
 Theorem C12_conv_keys_not_skipped :
